@@ -19,6 +19,7 @@ import (
 
 	ch "github.com/WuKongIM/WuKongIM/pkg/channel"
 	"github.com/WuKongIM/WuKongIM/pkg/channel/store"
+	channeltransport "github.com/WuKongIM/WuKongIM/pkg/channel/transport"
 	"github.com/WuKongIM/WuKongIM/pkg/verifkit"
 )
 
@@ -234,6 +235,25 @@ type c10Hub struct {
 	// applied counts replicated record batches a node persisted as a follower.
 	applied map[ch.NodeID]int
 
+	// Leader-side follower progress entries, derived from the transport the
+	// harness owns (machine.ChannelState.Progress is not exported anywhere).
+	// The leader creates Progress[f] only in ApplyFollowerAck with an offset
+	// > 0, which is reached only from a Pull carrying AckOffset>0 or an Ack
+	// carrying MatchOffset>0 sent by f. ackMu orders those RPCs against the
+	// director's leader retention calls:
+	//   - no such RPC of f was ever handed to the leader  => no entry;
+	//   - one returned without error before the retention call started, and
+	//     none may start while the call runs (held) => entry present;
+	//   - anything else (RPC failed, or still in flight) => unknown.
+	ackMu       sync.Mutex
+	ackCond     *sync.Cond
+	ackStarted  map[ch.NodeID]bool
+	ackDone     map[ch.NodeID]bool
+	ackUnknown  map[ch.NodeID]bool
+	ackInflight map[ch.NodeID]int
+	holdAcks    bool
+	frozenDone  map[ch.NodeID]bool
+
 	// mode names the replication wiring of the live case ("pull" / "quorum").
 	mode string
 	// history returns the director's step log for witnesses (may be nil).
@@ -259,7 +279,141 @@ type c10Hub struct {
 }
 
 func c10NewHub(r *verifkit.Run) *c10Hub {
-	return &c10Hub{r: r, factories: map[ch.NodeID]*c10Factory{}, lastLocal: map[ch.NodeID]uint64{}, lastPhys: map[ch.NodeID]uint64{}, applied: map[ch.NodeID]int{}}
+	h := &c10Hub{r: r, factories: map[ch.NodeID]*c10Factory{}, lastLocal: map[ch.NodeID]uint64{}, lastPhys: map[ch.NodeID]uint64{}, applied: map[ch.NodeID]int{},
+		ackStarted: map[ch.NodeID]bool{}, ackDone: map[ch.NodeID]bool{}, ackUnknown: map[ch.NodeID]bool{}, ackInflight: map[ch.NodeID]int{}}
+	h.ackCond = sync.NewCond(&h.ackMu)
+	return h
+}
+
+// ackBegin is called before an offset-carrying (>0) Pull/Ack of follower f is
+// handed to the leader. While the director runs a leader retention call such
+// RPCs are held, so the leader's Progress map cannot change under the call.
+func (h *c10Hub) ackBegin(f ch.NodeID) {
+	h.ackMu.Lock()
+	for h.holdAcks {
+		h.ackCond.Wait()
+	}
+	h.ackStarted[f] = true
+	h.ackInflight[f]++
+	h.ackMu.Unlock()
+}
+
+func (h *c10Hub) ackEnd(f ch.NodeID, err error) {
+	h.ackMu.Lock()
+	h.ackInflight[f]--
+	if err == nil {
+		h.ackDone[f] = true
+	} else if !h.ackDone[f] {
+		h.ackUnknown[f] = true // may or may not have reached ApplyFollowerAck
+	}
+	h.ackCond.Broadcast()
+	h.ackMu.Unlock()
+}
+
+// freezeAcks holds new offset-carrying RPCs, lets wait() give the ones in
+// flight time to return, then snapshots which followers had a successful one:
+// those entries existed before the leader retention call started.
+func (h *c10Hub) freezeAcks(wait func() bool) {
+	h.ackMu.Lock()
+	h.holdAcks = true
+	h.ackMu.Unlock()
+	wait()
+	h.ackMu.Lock()
+	h.frozenDone = map[ch.NodeID]bool{}
+	for f, ok := range h.ackDone {
+		h.frozenDone[f] = ok
+	}
+	h.ackMu.Unlock()
+}
+
+func (h *c10Hub) acksInflight() bool {
+	h.ackMu.Lock()
+	defer h.ackMu.Unlock()
+	for _, n := range h.ackInflight {
+		if n > 0 {
+			return true
+		}
+	}
+	return false
+}
+
+func (h *c10Hub) releaseAcks() {
+	h.ackMu.Lock()
+	h.holdAcks = false
+	h.frozenDone = nil
+	h.ackCond.Broadcast()
+	h.ackMu.Unlock()
+}
+
+// progressEntryClass classifies the leader's Progress entry of follower f as
+// of the decision of the running leader retention call (see the ackMu
+// comment): never started => none; succeeded before the freeze => present;
+// otherwise (failed, or returned only after the freeze) unknown.
+func (h *c10Hub) progressEntryClass(f ch.NodeID) string {
+	h.ackMu.Lock()
+	defer h.ackMu.Unlock()
+	switch {
+	case !h.ackStarted[f]:
+		return "no-progress-entry"
+	case h.frozenDone != nil && h.frozenDone[f]:
+		return "progress-entry-present"
+	default:
+		return "progress-entry-unknown"
+	}
+}
+
+// c10Net is the replication transport handed to the runtimes: the in-process
+// network plus the ack bookkeeping above. It deliberately does not implement
+// transport.BatchClient, so every pull is one observable RPC.
+type c10Net struct {
+	base channeltransport.Client
+	hub  atomic.Pointer[c10Hub]
+}
+
+func (n *c10Net) track(key ch.ChannelKey, offset uint64) *c10Hub {
+	h := n.hub.Load()
+	if h == nil || offset == 0 {
+		return nil
+	}
+	h.mu.Lock()
+	mine := h.key == key
+	h.mu.Unlock()
+	if !mine {
+		return nil
+	}
+	return h
+}
+
+func (n *c10Net) Pull(ctx context.Context, node ch.NodeID, req channeltransport.PullRequest) (channeltransport.PullResponse, error) {
+	h := n.track(req.ChannelKey, req.AckOffset)
+	if h != nil {
+		h.ackBegin(req.Follower)
+	}
+	resp, err := n.base.Pull(ctx, node, req)
+	if h != nil {
+		h.ackEnd(req.Follower, err)
+	}
+	return resp, err
+}
+
+func (n *c10Net) Ack(ctx context.Context, node ch.NodeID, req channeltransport.AckRequest) error {
+	h := n.track(req.ChannelKey, req.MatchOffset)
+	if h != nil {
+		h.ackBegin(req.Follower)
+	}
+	err := n.base.Ack(ctx, node, req)
+	if h != nil {
+		h.ackEnd(req.Follower, err)
+	}
+	return err
+}
+
+func (n *c10Net) PullHint(ctx context.Context, node ch.NodeID, req channeltransport.PullHintRequest) error {
+	return n.base.PullHint(ctx, node, req)
+}
+
+func (n *c10Net) Notify(ctx context.Context, node ch.NodeID, req channeltransport.NotifyRequest) error {
+	return n.base.Notify(ctx, node, req)
 }
 
 func (h *c10Hub) noteApplied(node ch.NodeID) {
@@ -662,14 +816,7 @@ func (s *c10Store) TrimMessagesThrough(ctx context.Context, through uint64, opts
 			}
 			if res.Deleted > 0 && deletedThrough > fst.LEO {
 				h.leaderTrimmedAboveFollower.Store(true)
-				// A follower that never persisted a replicated batch never
-				// acknowledged a non-zero offset, so the leader has no progress
-				// entry for it; one that did is known to the leader and merely
-				// behind.
-				kind := "follower-lagging"
-				if h.appliedCount(fnode) == 0 {
-					kind = "follower-never-applied"
-				}
+				kind := h.progressEntryClass(fnode)
 				c10V(h.r, "leader-trim-above-isr-follower-leo:"+kind+":"+h.mode, map[string]any{
 					"replication_mode": h.mode,
 					"leader": node, "follower": fnode, "follower_durable_leo_after_trim": fst.LEO, "follower_replicated_batches_applied": h.appliedCount(fnode),
